@@ -23,13 +23,16 @@ import (
 //	{"fam":"rand","seed":S,"count":K,"depth":D}
 
 type randCase struct {
-	Seed  int64 `json:"seed"`
-	Count int   `json:"count"`
-	Depth int   `json:"depth"`
+	Seed    int64 `json:"seed"`
+	Count   int   `json:"count"`
+	Depth   int   `json:"depth"`
+	Objects bool  `json:"objects"` // also generate objects, one-of and self-referential scopes (C03 / C01)
 }
 
 type gen struct {
-	r *rand.Rand
+	r       *rand.Rand
+	objects bool
+	nextID  int
 }
 
 func (g *gen) pick(n int) int { return g.r.Intn(n) }
@@ -89,9 +92,16 @@ func (g *gen) schema(depth int, key bool) *cz.Schema {
 	} else if depth <= 1 {
 		kinds = kinds[:8]
 	}
+	if g.objects && !key && depth >= 2 {
+		kinds = append(kinds, "object", "object", "object", "oneof")
+	}
 	k := pickOf(g, kinds)
 	s := &cz.Schema{Kind: k}
 	switch k {
+	case "object":
+		return g.object(depth, false, "")
+	case "oneof":
+		return g.oneof(depth)
 	case "int":
 		vals := append(append([]int64{}, smallInts...), edgeInBounds...)
 		s.Min, s.Max = ordered(g.optBound(vals), g.optBound(vals))
@@ -144,6 +154,95 @@ func (g *gen) schema(depth int, key bool) *cz.Schema {
 		s.Vals = g.schema(depth-1, false)
 		s.Min, s.Max = ordered(g.optBound([]int64{0, 1, 2, 3}), g.optBound([]int64{0, 1, 2, 3, 5}))
 		s.Typed = g.chance(0.4)
+	}
+	return s
+}
+
+var propNames = []string{"a", "b", "c", "e", "f", "l", "m", "n", "s", "u", "x"}
+
+// object builds a map-based object with 0..4 properties and random rule wiring.
+func (g *gen) object(depth int, forOneOf bool, discField string) *cz.Schema {
+	g.nextID++
+	o := &cz.Schema{Kind: "object", ID: fmt.Sprintf("O%d", g.nextID), Layout: "map", Props: []*cz.Prop{}}
+	n := g.pick(5)
+	perm := g.r.Perm(len(propNames))
+	var names []string
+	for i := 0; i < n; i++ {
+		names = append(names, propNames[perm[i]])
+	}
+	subset := func(self string) []string {
+		out := []string{}
+		for _, x := range names {
+			if x != self && g.chance(0.25) {
+				out = append(out, x)
+			}
+		}
+		return out
+	}
+	for _, nm := range names {
+		p := &cz.Prop{Name: nm, Type: g.schema(depth-1, false), Required: g.chance(0.3), RequiredIf: []string{}, RequiredIfNot: []string{}, Conflicts: []string{}}
+		switch g.pick(5) {
+		case 0:
+			p.RequiredIf = subset(nm)
+		case 1:
+			p.RequiredIfNot = subset(nm)
+		case 2:
+			p.Conflicts = subset(nm)
+		}
+		if g.chance(0.1) {
+			p.Disabled = true
+		}
+		if g.chance(0.3) {
+			// a default in decoded-JSON form that the type plausibly accepts
+			switch p.Type.Kind {
+			case "int", "float":
+				p.Default = cz.OptValue{Some: true, V: &cz.Value{K: "float", Rep: "float64", N: 2 * int64(g.pick(4))}}
+			case "string":
+				p.Default = cz.OptValue{Some: true, V: &cz.Value{K: "str", Rep: "string", S: pickOf(g, []string{"a", "ab", "#empty", "1"})}}
+			case "bool":
+				p.Default = cz.OptValue{Some: true, V: &cz.Value{K: "bool", Rep: "bool", B: g.chance(0.5)}}
+			case "list":
+				p.Default = cz.OptValue{Some: true, V: &cz.Value{K: "list", Rep: "any", List: []*cz.Value{}}}
+			case "any":
+				p.Default = cz.OptValue{Some: true, V: &cz.Value{K: "str", Rep: "string", S: "a"}}
+			}
+		}
+		o.Props = append(o.Props, p)
+	}
+	return o
+}
+
+func (g *gen) oneof(depth int) *cz.Schema {
+	s := &cz.Schema{Kind: "oneof", Disc: pickOf(g, []string{"string", "int"}), Field: pickOf(g, []string{"type", "kind"}), Inlined: g.chance(0.4)}
+	n := 2 + g.pick(2)
+	keysS := []string{"a", "b", "1"}
+	for i := 0; i < n; i++ {
+		m := g.object(depth-1, true, s.Field)
+		// the members must agree with the inlining flag (construction-time check of the SDK)
+		var props []*cz.Prop
+		for _, p := range m.Props {
+			if p.Name != s.Field {
+				props = append(props, p)
+			}
+		}
+		if props == nil {
+			props = []*cz.Prop{}
+		}
+		if s.Inlined {
+			dt := &cz.Schema{Kind: "string"}
+			if s.Disc == "int" {
+				dt = &cz.Schema{Kind: "int"}
+			}
+			props = append(props, &cz.Prop{Name: s.Field, Type: dt, Required: true, RequiredIf: []string{}, RequiredIfNot: []string{}, Conflicts: []string{}})
+		}
+		m.Props = props
+		mem := cz.Member{S: m}
+		if s.Disc == "int" {
+			mem.KeyInt = int64(i + 1)
+		} else {
+			mem.KeyStr = keysS[i]
+		}
+		s.Members = append(s.Members, mem)
 	}
 	return s
 }
@@ -317,6 +416,63 @@ func (g *gen) aimed(s *cz.Schema, native bool, depth int) *cz.Value {
 		return &cz.Value{K: "bool", Rep: "bool", B: g.chance(0.5)}
 	case "any":
 		return g.anyValue(depth)
+	case "object":
+		v := &cz.Value{K: "map", Rep: "any_any", Pairs: [][2]*cz.Value{}}
+		if native || g.chance(0.4) {
+			v.Rep = "string_any"
+		}
+		for _, p := range s.Props {
+			if g.chance(0.65) {
+				v.Pairs = append(v.Pairs, [2]*cz.Value{{K: "str", Rep: "string", S: p.Name}, g.aimed(p.Type, native, depth-1)})
+			}
+		}
+		if g.chance(0.06) {
+			v.Pairs = append(v.Pairs, [2]*cz.Value{{K: "str", Rep: "string", S: "kind"}, g.anyScalar()})
+		}
+		if !native && g.chance(0.04) {
+			v.Pairs = append(v.Pairs, [2]*cz.Value{g.intValue(1, false), g.anyScalar()})
+			v.Rep = "any_any"
+		}
+		return v
+	case "oneof":
+		m := pickOf(g, s.Members)
+		v := g.aimed(m.S, native, depth)
+		if v.K != "map" {
+			return v
+		}
+		var d *cz.Value
+		if s.Disc == "int" {
+			d = g.intValue(m.KeyInt, native)
+			if !native && g.chance(0.2) {
+				d = &cz.Value{K: "str", Rep: "string", S: fmt.Sprintf("%d", m.KeyInt)}
+			}
+			if g.chance(0.1) {
+				d = g.intValue(7, native)
+			}
+		} else {
+			d = &cz.Value{K: "str", Rep: "string", S: m.KeyStr}
+			if g.chance(0.1) {
+				d.S = "c"
+			}
+			if !native && m.KeyStr == "1" && g.chance(0.5) {
+				d = g.intValue(1, false)
+			}
+		}
+		// the member's own discriminator property (inlined) is generated by aimed(); replace it
+		var pairs [][2]*cz.Value
+		for _, p := range v.Pairs {
+			if !(p[0].K == "str" && p[0].S == s.Field) {
+				pairs = append(pairs, p)
+			}
+		}
+		if pairs == nil {
+			pairs = [][2]*cz.Value{}
+		}
+		if !g.chance(0.08) {
+			pairs = append(pairs, [2]*cz.Value{{K: "str", Rep: "string", S: s.Field}, d})
+		}
+		v.Pairs = pairs
+		return v
 	case "list":
 		n := g.pick(6)
 		v := &cz.Value{K: "list", Rep: "any", List: []*cz.Value{}}
@@ -538,7 +694,7 @@ func runRand(raw json.RawMessage) any {
 	if err := json.Unmarshal(raw, &rc); err != nil {
 		return map[string]any{"harness_error": "bad rand case: " + err.Error()}
 	}
-	g := &gen{r: rand.New(rand.NewSource(rc.Seed))}
+	g := &gen{r: rand.New(rand.NewSource(rc.Seed)), objects: rc.Objects}
 	r := &resT{Evals: 1, Trace: []map[string]any{}}
 	ops := []string{"unser", "unser", "unser", "valid", "ser", "compat"}
 	for i := 0; i < rc.Count; i++ {
@@ -569,7 +725,13 @@ func runRand(raw json.RawMessage) any {
 		}
 		out := map[string]any{"ok": o.Err == nil}
 		if o.Err == nil && (op == "unser" || op == "ser") {
-			a, err := cz.FromGo(o.Val, e)
+			var a *cz.Value
+			var err error
+			if op == "unser" {
+				a, err = cz.FromGoS(o.Val, e, s)
+			} else {
+				a, err = cz.FromGo(o.Val, e)
+			}
 			if err != nil {
 				if errors.Is(err, cz.ErrInexpressible) {
 					r.Inexpressible++
